@@ -83,6 +83,7 @@ class Scenario:
         self.ttls = TTLS
         self.sub_counts = [1, 1, 2]
         self.fav_subs = None
+        self.shared_ep = False
         self.lost = False
 
     # ---------------- inputs
@@ -113,11 +114,15 @@ class Scenario:
             # a small alphabet of subscriptions per scenario so that refreshes / stops of the SAME key are frequent
             self.fav_subs = [(rng.choice(self.peers), rng.choice(SERVICES)[:3], rng.choice([5, 5, 6]), rng.choice([0, 0, 1, 15]), 1)
                              for _ in range(rng.choice([1, 2, 3]))]
+            # in some scenarios the favourite subscriptions name ONE endpoint whoever sends them: equal subscription keys
+            # held by several source addresses (a relay / NAT situation; found missing by the seeded change m17)
+            self.shared_ep = rng.random() < 0.4
         p = rng.choice(self.peers)
         fav = None
         if rng.random() < 0.75:
             fav = rng.choice(self.fav_subs)
-            p = fav[0]
+            if not (self.shared_ep and rng.random() < 0.5):
+                p = fav[0]
         mc = rng.random() < 0.12
         entries, info = [], []
         for j in range(rng.choice(self.sub_counts)):
@@ -129,7 +134,8 @@ class Scenario:
                 cnt = rng.choice([0, 0, 0, 1, 15])
                 neps = rng.choice([1, 1, 1, 1, 0, 2])
             ttl = 0 if (kind == "stopsub" or rng.random() < 0.25) else rng.choice(self.ttls)
-            opts = tuple(endpoint(p.n, 5000 + k) for k in range(neps))
+            ep_host = 9 if (self.shared_ep and fav is not None and j == 0) else p.n
+            opts = tuple(endpoint(ep_host, 5000 + k) for k in range(neps))
             if rng.random() < 0.15:
                 opts += (H.SOMEIPSDConfigOption(configs=(("a", "b"),)),)
             e = H.SOMEIPSDEntry(sd_type=H.SOMEIPSDEntryType.Subscribe, service_id=sid, instance_id=iid, major_version=maj, ttl=ttl,
